@@ -38,6 +38,7 @@ class Effects:
     def __init__(self, prog, fl, cls):
         self.prog, self.fl, self.cls = prog, fl, cls
         self._written = {}
+        self.scalars = universe.scalar_attrs(prog)
 
     def kernel_written(self, callee):
         if callee.key not in self._written:
@@ -115,7 +116,7 @@ class Effects:
                     else:
                         rebound.add('*')
                     continue
-                if how in ('bind', 'del'):
+                if how in ('bind', 'del') or (how == 'aug' and name in self.scalars):
                     rebound.add(name)
                 elif name not in rebound:
                     inplace.add(name)
